@@ -35,9 +35,11 @@ SYNTAXES = [("pyproject.toml", "toml", "tool.bumpver"), ("bumpver.toml", "toml",
             (".bumpver.toml", "toml", "bumpver"), ("setup.cfg", "cfg-quoted", "bumpver"),
             ("setup.cfg", "cfg-unquoted", "bumpver"), ("setup.cfg", "cfg-legacy", "pycalver"),
             ("pycalver.toml", "toml", "pycalver")]
-MSGS = ["bump version {old_version} -> {new_version}", "release {new_version}", "bump: {old_version} to {new_version} (pep {new_version_pep440})",
+MSGS = ["bump version {old_version} -> {new_version}", "release {new_version}", "100% done: {new_version}",
+        "pct %% and %(name)s in {new_version}", "bump: {old_version} to {new_version} (pep {new_version_pep440})",
         "chore(release): {new_version}", "v{new_version}"]
 DECOR = [('__version__ = "{version}"'), ("version='{version}'"), ("tag: {version}"), ("pkg=={pep440_version}"),
+         ("badge/latest%20version-{version}-blue"), ("100%% {version}"),
          ("badge/{version}-blue"), ("{version}"), ("rev {version};")]
 
 
